@@ -81,7 +81,7 @@ func genC13(ctx *Ctx, i int) *Input {
 		r := rng.New(ctx.Seed, "C13", "edit", i)
 		b = r.Intn(len(bases))
 		n := len(bases[b].Text)
-		kinds := []string{"flip", "flip", "insert", "delete", "dupsector", "dropsector", "swapsector", "flip+truncate"}
+		kinds := []string{"flip", "flip", "insert", "delete", "dupsector", "dropsector", "swapsector", "flip+truncate", "insert-rune"}
 		c := &Corruption{Kind: rng.Pick(r, kinds), At: r.Intn(n), N: 16}
 		switch c.Kind {
 		case "flip", "insert", "flip+truncate":
@@ -91,6 +91,9 @@ func genC13(ctx *Ctx, i int) *Input {
 			}
 		case "swapsector":
 			c.Arg = r.Intn(n)
+		case "insert-rune":
+			// characters outside ASCII: digits and letters of other scripts, no-break space, an invalid byte, NUL
+			c.Arg = rng.Pick(r, []int{0x0663, 0x0967, 0xFF13, 0xE9, 0x4E2D, 0xA0, 0x2028, 0x1F600, -1, 0})
 		}
 		in.Corrupt = c
 	}
@@ -147,7 +150,13 @@ func (c *Corruption) Apply(t string) string {
 		}
 		return string(b[:cut])
 	case "insert":
-		return string(b[:at]) + string(rune(byte(c.Arg))) + string(b[at:])
+		return string(b[:at]) + string([]byte{byte(c.Arg)}) + string(b[at:])
+	case "insert-rune":
+		ins := string(rune(c.Arg))
+		if c.Arg < 0 {
+			ins = "\xff"
+		}
+		return string(b[:at]) + ins + string(b[at:])
 	case "delete":
 		if at < n {
 			return string(b[:at]) + string(b[at+1:])
@@ -199,8 +208,14 @@ func execC13(ctx *Ctx, in *Input) *Result {
 		res.Count("fault_"+in.Corrupt.Kind, 1)
 	}
 	if baseTicks == 0 {
-		o := enga.Run(enga.Case{Text: baseText, Variant: wl.Variant{Lang: "go"}, Sched: enga.Canonical(), Mode: "gen"})
+		// an explicit base (minimised replay): measure it under a budget no well-formed text of this size needs
+		o := enga.Run(enga.Case{Text: baseText, Variant: wl.Variant{Lang: "go"}, Sched: enga.Canonical(), Mode: "gen", Budget: 20_000_000 + 100_000*int64(len(baseText))})
 		baseTicks = o.Ticks
+		if o.Outcome == enga.OutHang || o.Outcome == enga.OutDeadlock {
+			// the base itself does not finish: damage is not even needed; judge the base as the text
+			baseTicks = 5000
+			text = baseText
+		}
 	}
 	budget := 200*baseTicks + 1_000_000
 	sc := enga.Canonical()
@@ -299,7 +314,7 @@ func init() {
 		Rule: "fault = damage to the grammar file handed to yaccgo while its lexer task and parser task run over their channel: EVERY truncation point of every base text (the repository's examples + rendered grammars of all families), then seeded byte substitutions/insertions/deletions from the grammar's own alphabet and duplicated/dropped/swapped 16-byte sectors. Each damaged text runs through generate (go, go -o -u, typescript) or debug under a tick budget of 200 x ticks(base) + 1e6. distinct_nontrivial = distinct damaged texts that were run to an outcome.",
 		NumCases: func(ctx *Ctx) int { c13Bases(ctx); return c13cum[len(c13cum)-1] + c13Edits(ctx) },
 		Gen:      genC13, Exec: execC13,
-		FaultKeys: []string{"fault_truncate", "fault_flip", "fault_insert", "fault_delete", "fault_dupsector", "fault_dropsector", "fault_swapsector", "fault_flip+truncate"},
+		FaultKeys: []string{"fault_truncate", "fault_flip", "fault_insert", "fault_insert-rune", "fault_delete", "fault_dupsector", "fault_dropsector", "fault_swapsector", "fault_flip+truncate"},
 		Probes:    []string{"outcome_ok", "outcome_error", "outcome_panic"},
 		Assume:    []string{"every loop of yaccgo carries a tick (the instrumenter adds one to every for/range body, function entry and goto label)", "a run that needs more than 200x the ticks of its well-formed base is not going to finish"},
 	})
